@@ -19,15 +19,10 @@ from .env import VERIF
 PATH = os.path.join(VERIF, "KNOWN_FINDINGS.txt")
 
 
-def _vec_nf_lowJ(d):
-    # C04 (iv): vectorized_ltf bin count differs from ltf by more than 10 % -- only for Jdes < 10,
-    # where the 10*Jdes-point lookup grid is coarser than the plan it is meant to resolve.
-    return d.get("clause") == "vec_nf_within_10pct" and int(d.get("Jdes", 10 ** 9)) < 10
-
-
-SIGS = {
-    "vec_nf_lowJ": _vec_nf_lowJ,
-}
+# No open findings at present: every defect found so far was repaired by a `fix:` commit in /repo
+# (see the `fixed:` lines of KNOWN_FINDINGS.txt).  A new entry needs a predicate here, e.g.
+#   def _sig(d): return d.get("clause") == "..." and d.get("sched") == "..." and ...
+SIGS = {}
 
 
 class Known:
